@@ -169,6 +169,10 @@ func checkC04(p *core.Program, r *core.Report) {
 	r.Rule("R9", "an XObject without a default returns itself from Default(): every call of XObject.Default() (outside hasDefault) is controlled by the true edge of hasDefault() on the same object, or listed — an unguarded conversion `ToX(env, obj.Default())` recurses on the same object until the stack overflows")
 	c04R9(p, r)
 
+	// ---------- R10 a nil pointer inside an interface is not a nil interface
+	r.Rule("R10", "no nil pointer is stored in an interface: a pointer that is nil on some path (a `var p *T` filled in on one branch only) is not converted to an interface value — the interface then compares unequal to nil, the `x == nil` guard at its consumers passes, and the method call on it dereferences nil (a panic, not an error value)")
+	c04R10(p, r)
+
 	// ---------- R5 constant-offset string slicing
 	r.Rule("R5", "every s[k:], s[:k], s[k] with a constant offset on a string/[]byte in the evaluation packages is guarded by a length / non-empty / prefix test on the same value or listed")
 	r.Count("const_offset_string_sites", c04R5(p, r, fns, "R5", c04SliceAllowed))
@@ -1164,4 +1168,123 @@ func c04R9(p *core.Program, r *core.Report) {
 		r.Bad("R9", key, p.Pos(cs.Pos()), "Default() of "+canonShort(recv)+" is used without a hasDefault() test on it: for an object without a default this is the object itself, and converting or rendering it again recurses without end (fatal stack overflow, not an error value)")
 	}
 	r.Require("xobject_default_calls", n, 8)
+}
+
+// ---------------------------------------------------------------------------------------------- R10
+
+// c04R10: module-wide. A MakeInterface whose operand is a pointer that is the nil constant on some incoming edge of
+// a phi (transitively) — unless that MakeInterface is itself controlled by a non-nil test of the pointer.
+func c04R10(p *core.Program, r *core.Report) {
+	n := 0
+	for _, fn := range p.ModuleFunctions() {
+		if fn.Synthetic != "" || strings.HasPrefix(core.RelPkg(core.FuncPkgPath(fn)), "antlr/gen") {
+			continue // generated parsers hand a nil context to predicates that type-assert it, never nil-test it
+		}
+		for _, b := range fn.Blocks {
+			for _, ins := range b.Instrs {
+				mi, ok := ins.(*ssa.MakeInterface)
+				if !ok {
+					continue
+				}
+				if _, isPtr := mi.X.Type().Underlying().(*types.Pointer); !isPtr {
+					continue
+				}
+				n++
+				mayNil := false
+				seen := map[ssa.Value]bool{}
+				var walk func(v ssa.Value)
+				walk = func(v ssa.Value) {
+					if seen[v] {
+						return
+					}
+					seen[v] = true
+					switch x := v.(type) {
+					case *ssa.Phi:
+						for _, e := range x.Edges {
+							walk(e)
+						}
+					case *ssa.Const:
+						if x.IsNil() {
+							mayNil = true
+						}
+					}
+				}
+				if _, isPhi := mi.X.(*ssa.Phi); !isPhi {
+					continue
+				}
+				walk(mi.X)
+				if !mayNil {
+					continue
+				}
+				guarded := xNilGuard(mi.Block(), mi.X) != ""
+				if !guarded && c04ConsumersReflectNil(mi) {
+					guarded = true
+				}
+				key := core.FuncName(fn) + "/" + strings.TrimPrefix(mi.X.Type().String(), "*github.com/nyaruka/goflow/") + "->" + types.TypeString(mi.Type(), func(*types.Package) string { return "" })
+				pos := mi.Pos()
+				if !pos.IsValid() {
+					pos = fn.Pos()
+				}
+				r.Check(guarded, "R10", key, p.Pos(pos), "the pointer is tested non-nil before it is converted", "a pointer that is nil on some path is converted to interface "+mi.Type().String()+": the interface is then not nil, nil guards on it pass and a method call on it dereferences nil")
+			}
+		}
+	}
+	r.Count("pointer_to_interface_conversions", n)
+	r.Require("pointer_to_interface_conversions", n, 100)
+}
+
+// c04ConsumersReflectNil: the interface value is only handed to functions that test that parameter with the
+// reflection-based utils.IsNil (which sees a nil pointer inside an interface) before using it.
+func c04ConsumersReflectNil(mi *ssa.MakeInterface) bool {
+	refs := mi.Referrers()
+	if refs == nil || len(*refs) == 0 {
+		return false
+	}
+	for _, ref := range *refs {
+		if _, isDbg := ref.(*ssa.DebugRef); isDbg {
+			continue
+		}
+		call, ok := ref.(ssa.CallInstruction)
+		if !ok {
+			return false
+		}
+		callee := call.Common().StaticCallee()
+		if callee == nil || len(callee.Blocks) == 0 {
+			return false
+		}
+		for i, a := range call.Common().Args {
+			if a != ssa.Value(mi) {
+				continue
+			}
+			if i >= len(callee.Params) {
+				return false
+			}
+			par := callee.Params[i]
+			tested := false
+			for _, cs := range core.Calls(callee, false) {
+				if o := core.CalleeObj(cs.Common()); o != nil && (strings.HasSuffix(core.ObjName(o), "utils.IsNil") || core.ObjName(o) == "reflect.ValueOf") && len(cs.Common().Args) == 1 {
+					a0 := cs.Common().Args[0]
+					if ci, ok := a0.(*ssa.ChangeInterface); ok {
+						a0 = ci.X
+					}
+					if ld, ok := a0.(*ssa.UnOp); ok && ld.Op == token.MUL {
+						if al, ok := ld.X.(*ssa.Alloc); ok { // a parameter a closure captures is spilled to a cell
+							for _, r2 := range *al.Referrers() {
+								if st, ok := r2.(*ssa.Store); ok && st.Addr == ssa.Value(al) && st.Val == ssa.Value(par) {
+									a0 = par
+								}
+							}
+						}
+					}
+					if a0 == ssa.Value(par) {
+						tested = true
+					}
+				}
+			}
+			if !tested {
+				return false
+			}
+		}
+	}
+	return true
 }
